@@ -1,1 +1,98 @@
-//! (to be filled)
+//! Independent DogStatsD datagram parser, written from the protocol description:
+//! `<name>:<value>(:<value>)*|<type>[|@<rate>][|#<tag>(,<tag>)*][|T<unix ts>]\n`
+#[derive(Clone, Debug, PartialEq)]
+pub struct Msg {
+    pub name: String,
+    pub values: Vec<String>,
+    pub ty: char,
+    pub rate: Option<String>,
+    pub tags: Vec<String>,
+    pub ts: Option<u64>,
+}
+
+/// Parses exactly one message (terminated by exactly one trailing newline).
+pub fn parse_message(b: &[u8]) -> Result<Msg, String> {
+    let s = std::str::from_utf8(b).map_err(|e| format!("not utf-8: {}", e))?;
+    let body = s.strip_suffix('\n').ok_or_else(|| "message does not end with a newline".to_string())?;
+    if body.contains('\n') {
+        return Err("more than one line in one payload".into());
+    }
+    let mut sections = body.split('|');
+    let head = sections.next().ok_or("empty")?;
+    let mut hv = head.split(':');
+    let name = hv.next().unwrap_or("").to_string();
+    let values: Vec<String> = hv.map(|x| x.to_string()).collect();
+    if values.is_empty() {
+        return Err(format!("no value in `{}`", head));
+    }
+    for v in &values {
+        if v.is_empty() {
+            return Err(format!("empty value in `{}`", head));
+        }
+        if v.parse::<f64>().is_err() && !["NaN", "inf", "-inf"].contains(&v.as_str()) {
+            return Err(format!("value `{}` is not a number", v));
+        }
+    }
+    let ty = sections.next().ok_or("missing type section")?;
+    let tyc = match ty {
+        "c" => 'c',
+        "g" => 'g',
+        "h" => 'h',
+        "d" => 'd',
+        "ms" => 'm',
+        "s" => 's',
+        other => return Err(format!("unknown metric type `{}`", other)),
+    };
+    let mut rate = None;
+    let mut tags: Vec<String> = Vec::new();
+    let mut ts = None;
+    let mut stage = 0; // 0: expect @/#/T, 1: after @, 2: after #, 3: after T
+    for sec in sections {
+        if let Some(r) = sec.strip_prefix('@') {
+            if stage >= 1 {
+                return Err("sample rate section out of order / repeated".into());
+            }
+            r.parse::<f64>().map_err(|_| format!("bad sample rate `{}`", r))?;
+            rate = Some(r.to_string());
+            stage = 1;
+        } else if let Some(t) = sec.strip_prefix('#') {
+            if stage >= 2 {
+                return Err("tag section out of order / repeated".into());
+            }
+            if t.is_empty() {
+                return Err("empty tag section".into());
+            }
+            tags = t.split(',').map(|x| x.to_string()).collect();
+            if tags.iter().any(|x| x.is_empty()) {
+                return Err(format!("empty tag in `{}`", t));
+            }
+            stage = 2;
+        } else if let Some(t) = sec.strip_prefix('T') {
+            if stage >= 3 {
+                return Err("timestamp section repeated".into());
+            }
+            ts = Some(t.parse::<u64>().map_err(|_| format!("bad timestamp `{}`", t))?);
+            stage = 3;
+        } else {
+            return Err(format!("unknown section `{}`", sec));
+        }
+    }
+    Ok(Msg { name, values, ty: tyc, rate, tags, ts })
+}
+
+/// Splits a byte stream of u32-LE length-prefixed frames.
+pub fn split_frames(mut b: &[u8]) -> Result<Vec<Vec<u8>>, String> {
+    let mut out = Vec::new();
+    while !b.is_empty() {
+        if b.len() < 4 {
+            return Err(format!("{} trailing byte(s) cannot hold a length prefix", b.len()));
+        }
+        let n = u32::from_le_bytes([b[0], b[1], b[2], b[3]]) as usize;
+        if b.len() < 4 + n {
+            return Err(format!("frame announces {} bytes but only {} follow", n, b.len() - 4));
+        }
+        out.push(b[4..4 + n].to_vec());
+        b = &b[4 + n..];
+    }
+    Ok(out)
+}
